@@ -570,29 +570,29 @@ func runCLI(dir string, args []string) (code int, out string, err error) {
 	cmd.Env = []string{"PATH=/usr/bin:/bin", "HOME=" + dir, "NO_COLOR=1"}
 	var buf bytes.Buffer
 	cmd.Stdout, cmd.Stderr = &buf, &buf
-	done := make(chan error, 1)
-	if serr := cmd.Start(); serr != nil {
-		return 0, "", serr
-	}
-	go func() { done <- cmd.Wait() }()
-	select {
-	case werr := <-done:
-		if ee, ok := werr.(*exec.ExitError); ok {
-			return ee.ExitCode(), buf.String(), nil
-		} else if werr != nil {
-			return 0, buf.String(), werr
-		}
-		return 0, buf.String(), nil
-	case <-time.After(20 * time.Second):
-		_ = cmd.Process.Kill()
-		fmt.Println("WATCHDOG: the emerge binary did not exit within 20 s; this run is inconclusive")
+	werr := emit.Watch(cmd)
+	switch {
+	case werr == emit.ErrSpinning:
+		return -1, buf.String(), errSpin
+	case werr == emit.ErrTimeout:
+		fmt.Println("WATCHDOG: the emerge binary did not exit within its wall-clock limit without using the processor; this run is inconclusive")
 		os.Exit(3)
 	}
-	return 0, "", nil
+	if ee, ok := werr.(*exec.ExitError); ok {
+		return ee.ExitCode(), buf.String(), nil
+	} else if werr != nil {
+		return 0, buf.String(), werr
+	}
+	return 0, buf.String(), nil
 }
+
+var errSpin = errors.New("spinning")
 
 func checkCLI(dir string, args []string) (int, error) {
 	code, out, err := runCLI(dir, args)
+	if err == errSpin {
+		return code, fmt.Errorf("emerge %q does not terminate: %v of processor time without exiting (a run costs milliseconds)", args, emit.SpinCPU)
+	}
 	if err != nil {
 		return code, fmt.Errorf("cannot run emerge %q: %v", args, err)
 	}
